@@ -245,10 +245,58 @@ def _run_single(case, tables, trace):
                     record(dt, ht, [seed, step, "edit:" + name])
 
     res, w = hist.run_world("C07", case, mode="drive", on_step=on_step)
+    brng = random.Random(derive(seed, "c07-big"))
+    if brng.random() < 0.06:
+        _big_content_checks(kind, case, brng, record, stats_extra)
     res["stats"]["c07"] = stats_extra
     removals = sum(v for k, v in res["stats"]["outcomes"].items() if k.startswith("remove") and k.endswith(":ok"))
     res["nontrivial"] = res["stats"].get("state_changing_ops", 0) >= 3 and removals >= 1
     return res
+
+
+def _big_content_checks(kind, case, crng, record, stats_extra):
+    """A content far larger than what the histories reach (60 nodes, 80 hyperedges, metadata): the fingerprint of
+    its single-element edits - in particular of the largest node, the last hyperedge, the weightedness flag - must differ."""
+    n = 60
+    weighted = crng.random() < 0.5
+    nodes = {i: ({"k": "v%d" % i} if i % 3 == 0 else {}) for i in range(n)}
+    edges, seen = [], set()
+    while len(edges) < 80:
+        k = crng.randint(2, 6)
+        ns = tuple(sorted(crng.sample(range(n), k)))
+        if kind == "D":
+            cut = crng.randint(1, k - 1)
+            e = (ns[:cut], ns[cut:])
+        elif kind == "T":
+            e = (crng.randint(0, 30), ns)
+        elif kind == "M":
+            e = (ns, crng.choice(["a", "b"]))
+        else:
+            e = ns
+        if repr(e) not in seen:
+            seen.add(repr(e))
+            edges.append([e, crng.randint(1, 9) if weighted else 1, {"note": "m%d" % len(edges)} if len(edges) % 4 == 0 else {}])
+    types = {"H": "Hypergraph", "D": "DirectedHypergraph", "T": "TemporalHypergraph", "M": "MultiplexHypergraph"}
+    base = {"kind": kind, "weighted": weighted, "hmeta": {"weighted": weighted, "type": types[kind]}, "nodes": nodes, "edges": edges}
+    variants = [("big/base", base, None)] + [("big/" + nm, c, wtd) for nm, c, wtd in _edits(kind, base, list(range(n)) + [1000])]
+    # edits of the *largest* node and of the last hyperedge in sorted order
+    big = {"kind": kind, "weighted": weighted, "hmeta": dict(base["hmeta"]), "nodes": dict(nodes), "edges": [list(x) for x in edges]}
+    big["nodes"][n - 1] = {"k": "edited-last-node"}
+    variants.append(("big/last-node-metadata", big, None))
+    big2 = {"kind": kind, "weighted": weighted, "hmeta": dict(base["hmeta"]), "nodes": dict(nodes), "edges": [list(x) for x in edges]}
+    big2["nodes"][1000] = {}
+    variants.append(("big/add-largest-node", big2, None))
+    hashes = {}
+    for name, content, wtd in variants:
+        try:
+            twin = O.build(kind, content, None, weighted=wtd)
+            dt = O.content_digest(O.extract(kind, twin))
+            ht = _hash(twin)
+        except Exception:
+            stats_extra["edit_build_failed"] = stats_extra.get("edit_build_failed", 0) + 1
+            continue
+        record(dt, ht, [case.get("seed", 0), -1, name])
+        stats_extra["big_content_hashes"] = stats_extra.get("big_content_hashes", 0) + 1
 
 
 def execute(case):
@@ -293,7 +341,8 @@ def conflict_case(name, key, v1, v2, tier):
     cases = []
     for seed, step, _j in (w1, w2):
         c = generate(seed, tier)
-        c["ops"] = c["ops"][: step + 1]
+        if isinstance(step, int) and step >= 0:
+            c["ops"] = c["ops"][: step + 1]
         cases.append(c)
     return {"pair": cases}
 
